@@ -24,6 +24,18 @@ BAND8 = [0, 1, 2, 3] + list(range(118, 134))
 BAND16 = list(range(32755, 32776))
 
 
+# one statement per size-computation path of the assembler (text, bytes it emits): what may lie between a PC-relative operand and its label
+UNITS = {
+    "idx5": (" LDA 5,X", 2), "idx0": (" LDA ,X", 2), "idxinc": (" LDD ,X++", 2), "idxacc": (" LDA B,U", 2), "idx8n": (" STA -100,U", 3),
+    "idx16n": (" LDA -1000,X", 4), "ind16": (" LDA [1000,X]", 4), "ind8": (" LDA [100,X]", 3), "ind0": (" LDA [,Y]", 2), "extind": (" JMP [$1234]", 4),
+    "inh": (" NOP", 1), "inh2": (" SWI2", 2), "imm8": (" LDA #1", 2), "imm16": (" LDX #1", 3), "imm16p": (" LDY #1", 4), "dir": (" LDA $12", 2),
+    "ext": (" LDA $1234", 3), "extp": (" LDY $1234", 4), "dirp": (" STY $12", 3), "ext16": (" LDY $12", 4), "pcr8n": (" LDA 10,PCR", 3), "pcr16n": (" LDA 1000,PCR", 4),
+    "psh": (" PSHS A,B", 2), "tfr": (" TFR X,Y", 2), "fcb1": (" FCB 1", 1), "fcb5": (" FCB 1,2,3,4,5", 5), "fdb1": (" FDB $1234", 2),
+    "fdb3": (" FDB 1,2,3", 6), "fdb9": (" FDB 1,2,3,4,5,6,7,8,9", 18), "fcc": (' FCC "HELLO"', 5), "rmb7": (" RMB 7", 7), "lbra": (" LBRA FAR", 3),
+    "lbne": (" LBNE FAR", 4), "setdp": (" SETDP 0", 0),
+}
+
+
 def filler_lines(n, filler):
     """exactly n bytes of filler: RMB, or constant-offset indexed instructions (whose size estimate differs from RMB's) padded with RMB"""
     if not n:
@@ -121,6 +133,14 @@ def cases(tier, seed):
                     continue
                 for g in (range(84, 131) if thorough else range(92, 128, 1)):
                     yield {"shape": "mixed", "dir": direction, "k1": k1, "unit": unit, "k2": k2, "far": far, "g": g}
+    # (b4) the same with one or three statements of EVERY size-computation path in the span, the RMB filler centred on the 8/16-bit limit
+    for direction in ("fwd", "bwd"):
+        for unit, (text, usz) in UNITS.items():
+            for k1 in (1, 3):
+                for k2, far in ((0, False), (1, True), (1, False), (2, True), (3, True), (3, False)):
+                    base = k1 * usz + 3 * k2
+                    for g in range(max(0, 118 - base), max(0, 131 - base) + 1):
+                        yield {"shape": "mixed", "dir": direction, "k1": k1, "unit": unit, "k2": k2, "far": far, "g": g}
     # (c) bare numeric n,PCR
     for mnem in ("LDA", "LDY", "LEAX", "LDX"):
         for v in c01.V16:
@@ -156,7 +176,7 @@ def build(case):
     if sh == "ref":
         return prog_ref(case["mnem"], case["kind"], case["dir"], case["n"], case["k"], case["org"], case["ind"], case.get("filler", "rmb"))
     if sh == "mixed":
-        inner = [{"idx16": " LDA 300,X", "idx8": " LDA 100,X"}[case["unit"]]] * case["k1"] + \
+        inner = [{"idx16": " LDA 300,X", "idx8": " LDA 100,X"}.get(case["unit"]) or UNITS[case["unit"]][0]] * case["k1"] + \
                 [" LDB {},PCR".format("FAR" if case["far"] else "NEAR")] * case["k2"] + [" RMB {}".format(case["g"])]
         tail = ["NEAR NOP", " RMB 300", "FAR NOP"]
         if case["dir"] == "fwd":
@@ -336,7 +356,7 @@ def _d(x):
 def describe(tier):
     return {
         "alphabet": "(a) 19 short + 19 long branches, forward/backward/self, RMB filler n; targets L, L+-k; with ORG at 6 origins; "
-                    "(b) every indexed-capable mnemonic with L,PCR and [L,PCR], same sweeps; (b2) distances 100..140 built from constant-offset indexed / extended instructions instead of RMB; (b3) spans mixing 0-4 constant-offset indexed statements, 0-3 other unsized PCR statements (near or far) and RMB filler; (c) bare n,PCR over V16 x 3 spellings; "
+                    "(b) every indexed-capable mnemonic with L,PCR and [L,PCR], same sweeps; (b2) distances 100..140 built from constant-offset indexed / extended instructions instead of RMB; (b3) spans mixing 0-4 constant-offset indexed statements, 0-3 other unsized PCR statements (near or far) and RMB filler; (b4) the same with 1 or 3 statements of each of 33 size-computation paths (indexed forms, immediates, direct/extended, stack lists, FCB/FDB single and lists, FCC, RMB, long branches) in the span; (c) bare n,PCR over V16 x 3 spellings; "
                     "(d) two PCR statements (and PCR + short branch) referencing any of 5 labels around them, both gaps over 112..132"
                     + ("; three PCR statements, 6 reference shapes, three gaps over 112..132" if tier == "thorough" else ""),
         "bound": "n in 0..140 for {} mnemonics, boundary band {} for the rest; +-10 around 32767 for {}".format(
